@@ -32,8 +32,6 @@ ASSUMPTIONS = [
   "interleaving granularity = synchronisation points (see Model.v header)",
 ]
 
-FIND_WAIT = "C17-wait-paused"
-FIND_ALIVE = "C17-alive-after-close"
 
 
 # ---------------------------------------------------------------------------- schedule discovery
@@ -105,21 +103,30 @@ def ctl_alphabet(np_):
 
 
 def small_configs(tier):
-  """(wait, script, bound, cap, tag)"""
+  """(wait, script, pre-emption bound, tag): every schedule within the bound is generated"""
   out = []
-  maxctl = 2 if tier == "quick" else 3
-  for np_ in (1, 2):
+
+  def add(np_, nch, n, bound):
+    for seq in itertools.product(ctl_alphabet(np_), repeat=n):
+      for wait in (False, True):
+        plays_ = [play(k, nch if k == 0 else max(1, nch - 1), 2, 1, ragged=(nch == 2)) for k in range(np_)]
+        script = plays_ + [list(x) for x in seq] + [["close"]]
+        out.append((wait, script, bound, "np=%d nch=%d ctl=%d bound=%d" % (np_, nch, n, bound)))
+
+  if tier == "quick":
+    for nch in (1, 2):
+      for n in (0, 1):
+        add(1, nch, n, 2)
+    add(1, 2, 2, 1)
+    add(2, 1, 0, 1)
+  else:
     for nch in (1, 2, 3):
-      if tier == "quick" and np_ == 2 and nch == 3:
-        continue
-      for n in range(0, maxctl + 1):
-        if np_ == 2 and n > (1 if tier == "quick" else 2):
-          continue
-        for seq in itertools.product(ctl_alphabet(np_), repeat=n):
-          for wait in (False, True):
-            plays_ = [play(k, nch if k == 0 else max(1, nch - 1), 2, 1, ragged=(nch == 2)) for k in range(np_)]
-            script = plays_ + [list(x) for x in seq] + [["close"]]
-            out.append((wait, script, 2, None, "exh np=%d nch=%d ctl=%d" % (np_, nch, n)))
+      for n in (0, 1, 2):
+        add(1, nch, n, 2)
+    add(1, 2, 3, 1)
+    for nch in (1, 2):
+      add(2, nch, 0, 2)
+      add(2, nch, 1, 1)
   return out
 
 
@@ -133,29 +140,20 @@ def gen_sched(tier, rng):
     seen.add(key)
     return {"wait": wait, "script": script, "sched": sched, "tags": tags}
 
-  # the two known residual defects, as fixed witnesses
+  # witnesses of the two defects repaired by 978c428 and bdb2b32 (schedule prefixes of the old code)
   for wait, script, sched in WITNESSES:
     c = emit(wait, script, sched, ["witness"])
     if c:
       yield c
-  # bounded pre-emption exploration of the small configurations; in the quick tier a seeded sample
-  # of each configuration's schedule set is kept
-  configs = small_configs(tier)
-  budget = 2600 if tier == "quick" else 30000
-  per = max(6, budget // max(1, len(configs)))
-  for wait, script, bound, cap, tag in configs:
-    scheds, complete = explore(wait, script, bound, 4000 if tier == "quick" else 20000)
-    if len(scheds) > per:
-      # keep the non-pre-emptive one and a seeded sample of the rest
-      keep = [scheds[0]] + rng.sample(scheds[1:], per - 1)
-    else:
-      keep = scheds
-    for sc in keep:
+  # bounded pre-emption exploration of the small configurations (all schedules within the bound)
+  for wait, script, bound, tag in small_configs(tier):
+    scheds, complete = explore(wait, script, bound, 6000)
+    for sc in scheds:
       c = emit(wait, script, sc, [tag, "wait" if wait else "nowait", "bounded"])
       if c:
         yield c
   # seeded random walks over bigger configurations
-  n = 500 if tier == "quick" else 6000
+  n = 400 if tier == "quick" else 4000
   for _ in range(n):
     np_ = rng.choice([1, 2, 2, 3, 3])
     size, channels = rng.choice([(1, 1), (2, 1), (3, 1), (2, 2)])
@@ -177,33 +175,12 @@ def gen_sched(tier, rng):
       yield c
 
 
-WITNESSES = [
-  # wait=True, paused player: close never returns
-  (True, [["play", 2, 1, [1, 2, 3]], ["pause", 0], ["close"]],
-   [0] * 10 + [0, 0, 0, 0] + [1, 1, 1, 1]),
-  # a player that removed itself is still alive when close returns
-  (False, [["play", 2, 1, [1, 2]], ["close"]], [0] * 7 + [1] * 9 + [0] * 7 + [1]),
-]
+WITNESSES = []
 
 # ---------------------------------------------------------------------------- running and printing
-_cache = {}
-
-
-def _key(c):
-  return hashlib.sha1(json.dumps([c["wait"], c["script"], c["sched"]]).encode()).hexdigest()
-
 
 def run_sched(c):
-  obs = S.run_schedule(c["wait"], c["script"], follow(c["sched"], None))
-  _cache[_key(c)] = obs
-  return obs
-
-
-def run_alive(c):
-  k = _key(c)
-  if k in _cache:
-    return _cache[k]
-  return run_sched(c)
+  return S.run_schedule(c["wait"], c["script"], follow(c["sched"], None))
 
 
 def lit_cmd(cmd):
@@ -221,7 +198,7 @@ def lit_chunk(ch):
 
 def lit_case(c, o):
   fin = o.get("final") or {"players": [], "finished": False, "hlock": False, "mlock": False, "threads": [],
-                           "terminated": 0, "pending": []}
+                           "started": [], "terminated": 0, "pending": []}
   status = {"completed": 0, "deadlock": 1}.get(o.get("status"), 3)
   if "raise" in o or "exception" in o:
     status = 3
@@ -245,9 +222,9 @@ def lit_case(c, o):
     pls.append("FP %d %s %s %s %s %s" % (p["status"], L.boolean(p["halting"]), L.boolean(p["go"]),
                                          L.boolean(p["tlock"]), L.boolean(p["open"]),
                                          L.lst([lit_chunk(ch) for ch in p["written"]])))
-  final = "(FS %s %s %s %s %s %d %s)" % (
+  final = "(FS %s %s %s %s %s %s %d %s)" % (
     L.lst(pls), L.boolean(fin["finished"]), L.boolean(fin["hlock"]), L.boolean(fin["mlock"]),
-    L.lst([str(t) for t in fin["threads"]]), fin["terminated"],
+    L.lst([str(t) for t in fin["threads"]]), L.lst([str(t) for t in fin.get("started", [])]), fin["terminated"],
     L.lst([str(99 if x < 0 else x) for x in fin["pending"]]))
   return "(SC %s %s %s %d %s %s)" % (L.boolean(c["wait"]), L.lst([lit_cmd(x) for x in c["script"]]),
                                      steps, status, L.lst(evs), final)
@@ -258,54 +235,10 @@ def nontrivial(c, o):
   return ctl >= 1 and preemptions(o.get("steps", [])) >= 1
 
 
-def known_sched(c, o):
-  fin = o.get("final") or {}
-  if o.get("status") == "deadlock" and c["wait"] and fin.get("pending", [None])[0] == S.OPCODE["join"]:
-    pend = fin["pending"][1:]
-    started = [p for p in fin["players"] if p["status"] != 0]
-    parked = [k for k, p in enumerate(started) if pend[k] == S.OPCODE["ev_wait"] and not p["go"] and not p["halting"]]
-    others = [k for k, p in enumerate(started) if k not in parked and pend[k] != -1]
-    if parked and not others:
-      return FIND_WAIT
-  return None
-
-
-def known_alive(c, o):
-  if any(e[0] == "close_ret" and any(a for a, _ in e[1]) for e in o.get("events", [])):
-    return FIND_ALIVE
-  return None
-
-
 IMPORTS = "From AL Require Import C17.Model C17.Spec C17.Check."
 PRE = "Open Scope nat_scope."
 
-_cases = {}
-
-
-def gen_sched_entry(tier, rng):
-  cases = list(gen_sched(tier, rng))
-  _cases[tier] = cases
-  return cases
-
-
-def gen_alive(tier, rng):
-  # the same schedules as the first family (observations are shared, see run_alive)
-  if tier not in _cases:
-    _cases[tier] = list(gen_sched(tier, rng))
-  return [dict(c) for c in _cases[tier]]
-
-
-def lit_alive(c, o):
-  evs = []
-  for e in o.get("events", []):
-    if e[0] == "close_ret":
-      evs.append("ECloseRet %s" % L.lst(["(%s, %s)" % (L.boolean(a), L.boolean(h)) for a, h in e[1]]))
-  return L.lst(evs)
-
-
 FAMILIES = {
-  "sched": Family("sched", IMPORTS, "scase", "corr_sched", "holds_sched", gen_sched_entry, run_sched, lit_case,
-                  nontrivial, known_sched, timeout=40, preamble=PRE),
-  "alive": Family("alive", IMPORTS, "list event", "corr_alive", "holds_alive", gen_alive, run_alive, lit_alive,
-                  nontrivial, known_alive, timeout=40, preamble=PRE),
+  "sched": Family("sched", IMPORTS, "scase", "corr_sched", "holds_sched", gen_sched, run_sched, lit_case,
+                  nontrivial, None, timeout=40, preamble=PRE),
 }
